@@ -19,6 +19,9 @@ CHECKS = {
     "C12": (E1, "stateless model checking of the real code: exhaustive deviation-bounded enumeration of producer/consumer schedules; linearizability-style oracle on batches and values plus a vector-clock happens-before race detector on every plain access",
             "All schedules of 1-3 producers against a consumer (TransactionalBuffer) and of one producer against one consumer (TransactionalValue) up to the completed deviation bound, on the real headers; loss/duplication/order/torn-size are checked per execution and 'no data race' is decided by the happens-before detector, which reports a race in every schedule containing both accesses.",
             "Sequential consistency; 2-3 operations per thread; up to 3 producers (the statement's 1..8 is covered for <=3 only); bound named in the evidence.", "DESIGN.md 2.1, 4 C12"),
+    "C02": (E1, "stateless model checking of the real code: exhaustive deviation-bounded enumeration of schedules of the caller against the executing worker/detached thread, for every controller script; exactly-once, value, happens-before race and quarantine lifetime oracles on every execution",
+            "schedule(), async() and AsyncTask<T> (int, heap-owning std::string, lifetime-instrumented payload) are executed on the real headers and the real enkiTS scheduler under every schedule up to the completed deviation bound, for the internal backend with 2 and with 1 pool threads, the std::thread based OpenMP configuration and the serial debug backend; every {finished,get,wait} script up to length 3 followed by destruction. The property is about a window a few instructions wide (task start vs. member construction) and about memory touched after release: both need every schedule plus instrumentation, which this gives up to the bound.",
+            "Sequential consistency; TBB's own scheduling is not owned (TBB backend not claimed for the schedule quantifier); bursts larger than 3 tasks not covered; bound named in the evidence.", "DESIGN.md 2.1, 4 C02"),
     "C18": (E3, "bounded-exhaustive input enumeration against the real functions: every string/argument vector/URL component list of a declared finite space, independent naive oracle per case",
             "Every string up to length 6 (thorough 8) over alphabets that make delimiters, dots, separators and 0/1-character tokens frequent, every small URL / path / argv, and every decade and branch-constant neighbourhood of the pretty printers is executed against the real code under ASan/UBSan and compared with naive definitions of the decomposition laws. Exhaustive over the declared space; says nothing beyond it.",
             "The naive oracles are the intended definitions; longer strings behave like shorter ones (the code has no length-dependent control flow beyond token length 0/1/2).", "DESIGN.md 2.3, 4 C18"),
